@@ -307,10 +307,12 @@ def deserialize_address(address, encoding=None, network=None):
             prefix = address[:address.rfind('1')]
             networks = network_by_value('prefix_bech32', prefix)
             witness_type = 'segwit' if not witver else 'taproot'
-            if len(public_key_hash) == 20:
+            if witver:
+                script_type = 'p2tr'
+            elif len(public_key_hash) == 20:
                 script_type = 'p2wpkh'
             else:
-                script_type = 'p2wsh' if not witver else 'p2tr'
+                script_type = 'p2wsh'
             return {
                 'address': address,
                 'encoding': 'bech32',
